@@ -52,4 +52,481 @@ theorem inv_init (C size0 nchunks0 : Nat) (hC : 0 < C) (hn : 0 < nchunks0) (hs :
   refine ⟨hC, ?_, ?_, ?_, ?_, ?_, ?_, ?_, hs, ?_⟩ <;> simp [initSt, Pc.crit, Pc.ac, Pc.req, Returnable]
   omega
 
+/-- what one step does: only thread t's pc changes -/
+theorem step_cases (C : Nat) (s s' : St) (hs : Step C s s') :
+    ∃ t pc' sh', s' = ⟨sh', upd s.pcs t pc'⟩ ∧
+      ((s.pcs t = .idle ∧ ∃ n, pc' = .start n Gsu.Gen.Alloc.maxRetries ∧ 0 < n ∧ n ≤ C ∧ sh' = s.sh) ∨
+       tstep C t s.sh (s.pcs t) = some (sh', pc')) := by
+  cases hs with
+  | call t n hi hn => exact ⟨t, _, _, rfl, Or.inl ⟨hi, n, rfl, hn.1, hn.2, rfl⟩⟩
+  | step t sh' pc' h => exact ⟨t, pc', sh', rfl, Or.inr h⟩
+
+theorem mutex_step (C : Nat) (s s' : St) (hs : Step C s s') (hi : AInv C s) :
+    ∀ u, (s'.pcs u).crit = true ↔ s'.sh.lock = some u := by
+  obtain ⟨t, pc', sh', rfl, h⟩ := step_cases C s s' hs
+  have hm := hi.mutex
+  intro u
+  rcases h with ⟨hidle, n, rfl, _, _, rfl⟩ | h
+  · by_cases hu : u = t
+    · subst hu; have := hm u; simp_all [upd, Pc.crit]
+    · simp [upd, hu]; exact hm u
+  · cases hpc : s.pcs t <;> simp only [hpc, tstep] at h
+    all_goals (try split at h)
+    all_goals (try (simp only [Option.some.injEq, Prod.mk.injEq] at h; obtain ⟨rfl, rfl⟩ := h))
+    all_goals (try (cases h; done))
+    all_goals (by_cases hu : u = t)
+    all_goals (try subst hu)
+    all_goals (have hmu := hm u)
+    all_goals (try have hmt := hm t)
+    all_goals (simp_all [upd, Pc.crit])
+    all_goals (try grind)
+
+theorem acLe_step (C : Nat) (s s' : St) (hs : Step C s s') (hi : AInv C s) :
+    ∀ u ac, (s'.pcs u).ac = some ac → ac ≤ s'.sh.a := by
+  obtain ⟨t, pc', sh', rfl, h⟩ := step_cases C s s' hs
+  have hm := hi.acLe
+  intro u ac hac
+  rcases h with ⟨hidle, n, rfl, _, _, rfl⟩ | h
+  · by_cases hu : u = t
+    · subst hu; simp [upd, Pc.ac] at hac
+    · simp [upd, hu] at hac; exact hm u ac hac
+  · cases hpc : s.pcs t <;> simp only [hpc, tstep] at h
+    all_goals (try split at h)
+    all_goals (try (simp only [Option.some.injEq, Prod.mk.injEq] at h; obtain ⟨rfl, rfl⟩ := h))
+    all_goals (try (cases h; done))
+    all_goals (by_cases hu : u = t)
+    all_goals (try subst hu)
+    all_goals (have hmu := hm u)
+    all_goals (try have hmt := hm t)
+    all_goals (simp_all [upd, Pc.ac])
+    all_goals (try grind)
+
+theorem nOk_step (C : Nat) (s s' : St) (hs : Step C s s') (hi : AInv C s) :
+    ∀ u n, (s'.pcs u).req = some n → 0 < n ∧ n ≤ C := by
+  obtain ⟨t, pc', sh', rfl, h⟩ := step_cases C s s' hs
+  have hm := hi.nOk
+  intro u n' hac
+  rcases h with ⟨hidle, n, rfl, _, _, rfl⟩ | h
+  · by_cases hu : u = t
+    · subst hu; simp [upd, Pc.req] at hac; omega
+    · simp [upd, hu] at hac; exact hm u n' hac
+  · cases hpc : s.pcs t <;> simp only [hpc, tstep] at h
+    all_goals (try split at h)
+    all_goals (try (simp only [Option.some.injEq, Prod.mk.injEq] at h; obtain ⟨rfl, rfl⟩ := h))
+    all_goals (try (cases h; done))
+    all_goals (by_cases hu : u = t)
+    all_goals (try subst hu)
+    all_goals (have hmu := hm u)
+    all_goals (try have hmt := hm t)
+    all_goals (simp_all [upd, Pc.req])
+    all_goals (try grind)
+
+theorem crit_unique (C : Nat) (s : St) (hi : AInv C s) (t u : Nat)
+    (ht : (s.pcs t).crit = true) (hu : (s.pcs u).crit = true) : u = t := by
+  have h1 := (hi.mutex t).mp ht
+  have h2 := (hi.mutex u).mp hu
+  rw [h1] at h2; cases h2; rfl
+
+theorem lenEq_step (C : Nat) (s s' : St) (hs : Step C s s') (hi : AInv C s) :
+    ∀ u n r ac len, s'.pcs u = .chunksLoaded n r ac len → len = s'.sh.nchunks := by
+  obtain ⟨t, pc', sh', rfl, h⟩ := step_cases C s s' hs
+  have hm := hi.lenEq
+  intro u n' r' ac' len' hac
+  rcases h with ⟨hidle, n, rfl, _, _, rfl⟩ | h
+  · by_cases hu : u = t
+    · subst hu; simp [upd] at hac
+    · simp [upd, hu] at hac; exact hm u _ _ _ _ hac
+  · have hcu := crit_unique C s hi t u
+    cases hpc : s.pcs t <;> simp only [hpc, tstep] at h
+    all_goals (try split at h)
+    all_goals (try (simp only [Option.some.injEq, Prod.mk.injEq] at h; obtain ⟨rfl, rfl⟩ := h))
+    all_goals (try (cases h; done))
+    all_goals (by_cases hu : u = t)
+    all_goals (try subst hu)
+    all_goals (simp_all [upd, Pc.crit])
+    all_goals (try (have hmu := hm u _ _ _ _ hac; simp_all; done))
+    all_goals (try grind)
+
+/-- while thread `t` is inside the critical section but not between Store and Add, nobody is -/
+theorem nchunks_norm (C : Nat) (s : St) (hi : AInv C s) (t : Nat)
+    (ht : (s.pcs t).crit = true) (hm : (s.pcs t).mid = false) : s.sh.nchunks = s.sh.a + 1 := by
+  apply hi.norm
+  intro u
+  by_cases hu : u = t
+  · subst hu; exact hm
+  · cases hmu : (s.pcs u).mid with
+    | false => rfl
+    | true =>
+      have : (s.pcs u).crit = true := by
+        cases hp : s.pcs u <;> simp_all [Pc.mid, Pc.crit]
+      exact absurd (crit_unique C s hi t u ht this) hu
+
+theorem app_step (C : Nat) (s s' : St) (hs : Step C s s') (hi : AInv C s) :
+    ∀ u n r ac, s'.pcs u = .appended n r ac → ac = s'.sh.a ∧ s'.sh.nchunks = s'.sh.a + 2 := by
+  obtain ⟨t, pc', sh', rfl, h⟩ := step_cases C s s' hs
+  have hm := hi.app
+  intro u n' r' ac' hac
+  rcases h with ⟨hidle, n, rfl, _, _, rfl⟩ | h
+  · by_cases hu : u = t
+    · subst hu; simp [upd] at hac
+    · simp [upd, hu] at hac; exact hm u _ _ _ hac
+  · have hcu := crit_unique C s hi t u
+    have hnn := nchunks_norm C s hi t
+    have hle := hi.lenEq t
+    have hac' := hi.acLe t
+    cases hpc : s.pcs t <;> simp only [hpc, tstep] at h
+    all_goals (try split at h)
+    all_goals (try (simp only [Option.some.injEq, Prod.mk.injEq] at h; obtain ⟨rfl, rfl⟩ := h))
+    all_goals (try (cases h; done))
+    all_goals (by_cases hu : u = t)
+    all_goals first
+      | (subst hu; simp [upd] at hac; done)
+      | (simp only [upd, hu, ↓reduceIte] at hac; exact hm u _ _ _ hac)
+      | (simp only [upd, hu, ↓reduceIte] at hac; exfalso
+         have c1 : (s.pcs t).crit = true := by simp [hpc, Pc.crit]
+         have c2 : (s.pcs u).crit = true := by simp [hac, Pc.crit]
+         exact hu (hcu c1 c2))
+      | skip
+    -- chunksLoaded → appended by t itself
+    next n r ac len hlt =>
+      subst hu
+      simp only [upd, ↓reduceIte, Pc.appended.injEq] at hac
+      obtain ⟨rfl, rfl, rfl⟩ := hac
+      have h1 := hnn (by simp [hpc, Pc.crit]) (by simp [hpc, Pc.mid])
+      have h2 := hle _ _ _ _ hpc
+      have h3 := hac' ac (by simp [hpc, Pc.ac])
+      simp only
+      omega
+
+theorem szd_step (C : Nat) (s s' : St) (hs : Step C s s') (hi : AInv C s) :
+    ∀ u n r ac, s'.pcs u = .sized n r ac →
+      ac = s'.sh.a ∧ s'.sh.nchunks = s'.sh.a + 2 ∧ (ac + 1) * C ≤ s'.sh.size := by
+  obtain ⟨t, pc', sh', rfl, h⟩ := step_cases C s s' hs
+  have hm := hi.szd
+  intro u n' r' ac' hac
+  rcases h with ⟨hidle, n, rfl, _, _, rfl⟩ | h
+  · by_cases hu : u = t
+    · subst hu; simp [upd] at hac
+    · simp [upd, hu] at hac; exact hm u _ _ _ hac
+  · have hcu := crit_unique C s hi t u
+    cases hpc : s.pcs t <;> simp only [hpc, tstep] at h
+    all_goals (try split at h)
+    all_goals (try (simp only [Option.some.injEq, Prod.mk.injEq] at h; obtain ⟨rfl, rfl⟩ := h))
+    all_goals (try (cases h; done))
+    all_goals (by_cases hu : u = t)
+    all_goals first
+      | (subst hu; simp [upd] at hac; done)
+      | (simp only [upd, hu, ↓reduceIte] at hac; exact hm u _ _ _ hac)
+      | (simp only [upd, hu, ↓reduceIte] at hac; have := hm u _ _ _ hac; simp only; omega)
+      | (simp only [upd, hu, ↓reduceIte] at hac; exfalso
+         have c1 : (s.pcs t).crit = true := by simp [hpc, Pc.crit]
+         have c2 : (s.pcs u).crit = true := by simp [hac, Pc.crit]
+         exact hu (hcu c1 c2))
+      | skip
+    -- appended → sized by t itself
+    next n r ac =>
+      subst hu
+      simp only [upd, ↓reduceIte, Pc.sized.injEq] at hac
+      obtain ⟨rfl, rfl, rfl⟩ := hac
+      have h1 := hi.app u _ _ _ hpc
+      simp only
+      omega
+
+theorem norm_step (C : Nat) (s s' : St) (hs : Step C s s') (hi : AInv C s) :
+    (∀ u, (s'.pcs u).mid = false) → s'.sh.nchunks = s'.sh.a + 1 := by
+  obtain ⟨t, pc', sh', rfl, h⟩ := step_cases C s s' hs
+  intro hall
+  have hothers : ∀ u, u ≠ t → (s.pcs u).mid = false := by
+    intro u hu; have := hall u; simpa [upd, hu] using this
+  have hold : (s.pcs t).mid = false → s.sh.nchunks = s.sh.a + 1 := by
+    intro ht
+    apply hi.norm
+    intro u
+    by_cases hu : u = t
+    · subst hu; exact ht
+    · exact hothers u hu
+  have htnew := hall t
+  simp only [upd, ↓reduceIte] at htnew
+  rcases h with ⟨hidle, n, rfl, _, _, rfl⟩ | h
+  · exact hold (by simp [hidle, Pc.mid])
+  · cases hpc : s.pcs t <;> simp only [hpc, tstep] at h
+    all_goals (try split at h)
+    all_goals (try (simp only [Option.some.injEq, Prod.mk.injEq] at h; obtain ⟨rfl, rfl⟩ := h))
+    all_goals (try (cases h; done))
+    all_goals first
+      | (simp [Pc.mid] at htnew; done)
+      | (have c1 : (s.pcs t).mid = false := by simp [hpc, Pc.mid]
+         exact hold c1)
+      | skip
+    -- sized → unlocking
+    next n r ac =>
+      have := hi.szd t _ _ _ hpc
+      simp only
+      omega
+
+theorem sizeLo_step (C : Nat) (s s' : St) (hs : Step C s s') (hi : AInv C s) :
+    s'.sh.a * C ≤ s'.sh.size := by
+  obtain ⟨t, pc', sh', rfl, h⟩ := step_cases C s s' hs
+  have hm := hi.sizeLo
+  rcases h with ⟨hidle, n, rfl, _, _, rfl⟩ | h
+  · exact hm
+  · cases hpc : s.pcs t <;> simp only [hpc, tstep] at h
+    all_goals (try split at h)
+    all_goals (try (simp only [Option.some.injEq, Prod.mk.injEq] at h; obtain ⟨rfl, rfl⟩ := h))
+    all_goals (try (cases h; done))
+    all_goals first
+      | exact hm
+      | (simp only; omega)
+      | skip
+    · next n r ac =>
+      have h1 := hi.app t _ _ _ hpc
+      have := Nat.mul_le_mul_right C (Nat.le_succ s.sh.a)
+      simp only
+      rw [h1.1]
+      exact this
+    · next n r ac =>
+      have h1 := hi.szd t _ _ _ hpc
+      simp only
+      rw [← h1.1]
+      exact h1.2.2
+
+theorem returnable_mono (C : Nat) (s : St) (t : Nat) (pc' : Pc) (sh' : Sh) (hret : sh'.ret = s.sh.ret)
+    (hpc' : ∀ n r ac new, pc' ≠ .added n r ac new) (ac new n : Nat)
+    (h : Returnable C ⟨sh', upd s.pcs t pc'⟩ ac new n) : Returnable C s ac new n := by
+  rcases h with h | ⟨u, r, hu, hc⟩
+  · left; simpa [hret] using h
+  · right
+    by_cases hut : u = t
+    · subst hut; simp only [upd, ↓reduceIte] at hu; exact absurd hu (hpc' _ _ _ _)
+    · simp only [upd, hut, ↓reduceIte] at hu; exact ⟨u, r, hu, hc⟩
+
+theorem good_mono (C : Nat) (s : St) (sh' : Sh) (pcs' : Nat → Pc) (ac new n : Nat) (h : Good C s ac new n)
+    (h1 : s.sh.size ≤ sh'.size) (h2 : s.sh.a ≤ sh'.a) : Good C ⟨sh', pcs'⟩ ac new n := by
+  obtain ⟨g1, g2, g3, g4, g5, g6⟩ := h
+  exact ⟨g1, g2, g3, g4, by simp only; omega, by simp only; omega⟩
+
+theorem good_step (C : Nat) (s s' : St) (hs : Step C s s') (hi : AInv C s) :
+    ∀ ac new n, Returnable C s' ac new n → Good C s' ac new n := by
+  obtain ⟨t, pc', sh', rfl, h⟩ := step_cases C s s' hs
+  have hg := hi.good
+  intro ac' new' n' hr
+  rcases h with ⟨hidle, n, rfl, _, _, rfl⟩ | h
+  · exact good_mono C s _ _ _ _ _ (hg _ _ _ (returnable_mono C s t _ _ rfl (by simp) _ _ _ hr))
+      (Nat.le_refl _) (Nat.le_refl _)
+  · cases hpc : s.pcs t <;> simp only [hpc, tstep] at h
+    all_goals (try split at h)
+    all_goals (try (simp only [Option.some.injEq, Prod.mk.injEq] at h; obtain ⟨rfl, rfl⟩ := h))
+    all_goals (try (cases h; done))
+    all_goals first
+      | (refine good_mono C s _ _ _ _ _ (hg _ _ _ (returnable_mono C s t _ _ rfl ?_ _ _ _ hr)) ?_ ?_
+         · intro a b c d; simp
+         · (try simp only); omega
+         · (try simp only); omega)
+      | skip
+    · -- loaded → added: the carving step
+      next n r ac =>
+      have hac : ac ≤ s.sh.a := hi.acLe t ac (by simp [hpc, Pc.ac])
+      have hn := hi.nOk t n (by simp [hpc, Pc.req])
+      rcases hr with hr | ⟨u, r', hu, hc⟩
+      · exact good_mono C s _ _ _ _ _ (hg _ _ _ (Or.inl hr)) (by simp only; omega) (Nat.le_refl _)
+      · by_cases hut : u = t
+        · subst hut
+          simp only [upd, ↓reduceIte, Pc.added.injEq] at hu
+          obtain ⟨rfl, rfl, rfl, rfl⟩ := hu
+          refine ⟨hn.1, by omega, ?_, hc, Nat.le_refl _, hac⟩
+          have : ac * C ≤ s.sh.a * C := Nat.mul_le_mul_right C hac
+          have := hi.sizeLo
+          omega
+        · simp only [upd, hut, ↓reduceIte] at hu
+          exact good_mono C s _ _ _ _ _ (hg _ _ _ (Or.inr ⟨u, r', hu, hc⟩)) (by simp only; omega) (Nat.le_refl _)
+    · -- added → returned: the interval moves from "in flight" to the returned list
+      next n r ac new hcmp =>
+      have hold : Returnable C s ac' new' n' := by
+        rcases hr with hr | ⟨u, r', hu, hc⟩
+        · simp only [List.mem_cons] at hr
+          rcases hr with hr | hr
+          · simp only [Prod.mk.injEq] at hr
+            obtain ⟨rfl, rfl, rfl⟩ := hr
+            exact Or.inr ⟨t, r, hpc, hcmp⟩
+          · exact Or.inl hr
+        · by_cases hut : u = t
+          · subst hut; simp [upd] at hu
+          · simp only [upd, hut, ↓reduceIte] at hu
+            exact Or.inr ⟨u, r', hu, hc⟩
+      exact good_mono C s _ _ _ _ _ (hg _ _ _ hold) (Nat.le_refl _) (Nat.le_refl _)
+    · -- appended → sized: the only decreasing write of size
+      next n r ac =>
+      have hac : ac = s.sh.a := (hi.app t _ _ _ hpc).1
+      have hold : Returnable C s ac' new' n' := returnable_mono C s t _ _ rfl (by intro a b c d; simp) _ _ _ hr
+      obtain ⟨g1, g2, g3, g4, g5, g6⟩ := hg _ _ _ hold
+      refine ⟨g1, g2, g3, g4, ?_, g6⟩
+      have h2 : new' - 1 < (ac' + 1) * C := by
+        have := Nat.lt_mul_div_succ (new' - 1) hi.cpos
+        rw [g4, Nat.mul_comm] at this; exact this
+      have h3 : (ac' + 1) * C ≤ (ac + 1) * C := Nat.mul_le_mul_right C (by omega)
+      simp only
+      omega
+
+/-- the intervals `[x.end - x.n, x.end)` and `[y.end - y.n, y.end)` do not overlap -/
+def Disj (x y : Nat × Nat × Nat) : Prop := x.2.1 ≤ y.2.1 - y.2.2 ∨ y.2.1 ≤ x.2.1 - x.2.2
+
+theorem Disj.symm {x y} (h : Disj x y) : Disj y x := Or.symm h
+
+/-- thread `t` is about to return the interval (its compare will succeed) -/
+def InFlight (C : Nat) (s : St) (t ac new n : Nat) : Prop :=
+  ∃ r, s.pcs t = .added n r ac new ∧ (new - 1) / C = ac
+
+structure DInv (C : Nat) (s : St) : Prop where
+  d1 : s.sh.ret.Pairwise Disj
+  d2 : ∀ t ac new n, InFlight C s t ac new n → ∀ x ∈ s.sh.ret, Disj (ac, new, n) x
+  d3 : ∀ t u ac new n ac' new' n', t ≠ u → InFlight C s t ac new n → InFlight C s u ac' new' n' →
+    Disj (ac, new, n) (ac', new', n')
+
+theorem dinv_init (size0 nchunks0 C : Nat) : DInv C (initSt size0 nchunks0) := by
+  refine ⟨by simp [initSt], ?_, ?_⟩
+  · intro t ac new n h; simp [initSt, InFlight] at h
+  · intro t u ac new n ac' new' n' _ h; simp [initSt, InFlight] at h
+
+/-- a step that hands nothing out and carves nothing -/
+theorem dinv_frame (C : Nat) (s : St) (t : Nat) (pc' : Pc) (sh' : Sh) (hd : DInv C s)
+    (hret : sh'.ret = s.sh.ret) (hpc' : ∀ n r ac new, pc' ≠ .added n r ac new) :
+    DInv C ⟨sh', upd s.pcs t pc'⟩ := by
+  have old : ∀ u ac new n, InFlight C ⟨sh', upd s.pcs t pc'⟩ u ac new n → InFlight C s u ac new n := by
+    intro u ac new n ⟨r, hu, hc⟩
+    by_cases hut : u = t
+    · subst hut; simp only [upd, ↓reduceIte] at hu; exact absurd hu (hpc' _ _ _ _)
+    · simp only [upd, hut, ↓reduceIte] at hu; exact ⟨r, hu, hc⟩
+  refine ⟨by simpa [hret] using hd.d1, ?_, ?_⟩
+  · intro u ac new n h x hx
+    exact hd.d2 u ac new n (old _ _ _ _ h) x (by simpa [hret] using hx)
+  · intro u v ac new n ac' new' n' huv h1 h2
+    exact hd.d3 u v _ _ _ _ _ _ huv (old _ _ _ _ h1) (old _ _ _ _ h2)
+
+theorem dinv_step (C : Nat) (s s' : St) (hs : Step C s s') (hi : AInv C s) (hd : DInv C s) : DInv C s' := by
+  obtain ⟨t, pc', sh', rfl, h⟩ := step_cases C s s' hs
+  rcases h with ⟨hidle, n, rfl, _, _, rfl⟩ | h
+  · exact dinv_frame C s t _ _ hd rfl (by intro a b c d; simp)
+  · cases hpc : s.pcs t <;> simp only [hpc, tstep] at h
+    all_goals (try split at h)
+    all_goals (try (simp only [Option.some.injEq, Prod.mk.injEq] at h; obtain ⟨rfl, rfl⟩ := h))
+    all_goals (try (cases h; done))
+    all_goals first
+      | (refine dinv_frame C s t _ _ hd rfl ?_
+         intro a b c d; simp; done)
+      | skip
+    · -- loaded → added: the new interval starts at `size`, above every returnable one
+      next n r ac =>
+      have inflight_old : ∀ u ac' new' n', u ≠ t →
+          InFlight C ⟨{ s.sh with size := s.sh.size + n }, upd s.pcs t (.added n r ac (s.sh.size + n))⟩ u ac' new' n' →
+          InFlight C s u ac' new' n' := by
+        intro u ac' new' n' hut ⟨r', hu, hc⟩
+        simp only [upd, hut, ↓reduceIte] at hu
+        exact ⟨r', hu, hc⟩
+      have below : ∀ ac' new' n', Returnable C s ac' new' n' → new' ≤ s.sh.size :=
+        fun ac' new' n' h => (hi.good _ _ _ h).2.2.2.2.1
+      refine ⟨hd.d1, ?_, ?_⟩
+      · intro u ac' new' n' hf x hx
+        by_cases hut : u = t
+        · subst hut
+          obtain ⟨r', hu, hc⟩ := hf
+          simp only [upd, ↓reduceIte, Pc.added.injEq] at hu
+          obtain ⟨rfl, rfl, rfl, rfl⟩ := hu
+          obtain ⟨xa, xn, xl⟩ := x
+          have := below xa xn xl (Or.inl hx)
+          right; simp only; omega
+        · exact hd.d2 u _ _ _ (inflight_old u _ _ _ hut hf) x hx
+      · intro u v ac1 new1 n1 ac2 new2 n2 huv h1 h2
+        by_cases hut : u = t
+        · subst hut
+          have hvt : v ≠ u := fun h => huv h.symm
+          have h2' := inflight_old v _ _ _ hvt h2
+          obtain ⟨r', hu, hc⟩ := h1
+          simp only [upd, ↓reduceIte, Pc.added.injEq] at hu
+          obtain ⟨rfl, rfl, rfl, rfl⟩ := hu
+          obtain ⟨r2, hv2, hc2⟩ := h2'
+          have := below ac2 new2 n2 (Or.inr ⟨v, r2, hv2, hc2⟩)
+          right; simp only; omega
+        · by_cases hvt : v = t
+          · subst hvt
+            have h1' := inflight_old u _ _ _ hut h1
+            obtain ⟨r', hu, hc⟩ := h2
+            simp only [upd, ↓reduceIte, Pc.added.injEq] at hu
+            obtain ⟨rfl, rfl, rfl, rfl⟩ := hu
+            obtain ⟨r1, hv1, hc1⟩ := h1'
+            have := below ac1 new1 n1 (Or.inr ⟨u, r1, hv1, hc1⟩)
+            left; simp only; omega
+          · exact hd.d3 u v _ _ _ _ _ _ huv (inflight_old u _ _ _ hut h1) (inflight_old v _ _ _ hvt h2)
+    · -- added → returned
+      next n r ac new hcmp =>
+      have hft : InFlight C s t ac new n := ⟨r, hpc, hcmp⟩
+      have inflight_old : ∀ u ac' new' n',
+          InFlight C ⟨{ s.sh with ret := (ac, new, n) :: s.sh.ret }, upd s.pcs t (.returned (new - n) n)⟩ u ac' new' n' →
+          u ≠ t ∧ InFlight C s u ac' new' n' := by
+        intro u ac' new' n' ⟨r', hu, hc⟩
+        by_cases hut : u = t
+        · subst hut; simp [upd] at hu
+        · simp only [upd, hut, ↓reduceIte] at hu
+          exact ⟨hut, r', hu, hc⟩
+      refine ⟨List.pairwise_cons.mpr ⟨fun x hx => hd.d2 t _ _ _ hft x hx, hd.d1⟩, ?_, ?_⟩
+      · intro u ac' new' n' hf x hx
+        obtain ⟨hut, hf'⟩ := inflight_old u _ _ _ hf
+        rcases List.mem_cons.mp hx with rfl | hx
+        · exact hd.d3 u t _ _ _ _ _ _ hut hf' hft
+        · exact hd.d2 u _ _ _ hf' x hx
+      · intro u v ac1 new1 n1 ac2 new2 n2 huv h1 h2
+        exact hd.d3 u v _ _ _ _ _ _ huv (inflight_old u _ _ _ h1).2 (inflight_old v _ _ _ h2).2
+
+theorem inv_step (C : Nat) (s s' : St) (hs : Step C s s') (hi : AInv C s) : AInv C s' :=
+  ⟨hi.cpos, mutex_step C s s' hs hi, acLe_step C s s' hs hi, nOk_step C s s' hs hi,
+   lenEq_step C s s' hs hi, app_step C s s' hs hi, szd_step C s s' hs hi, norm_step C s s' hs hi,
+   sizeLo_step C s s' hs hi, good_step C s s' hs hi⟩
+
+theorem inv_reach (C size0 nchunks0 : Nat) (hC : 0 < C) (hn : 0 < nchunks0) (h0 : (nchunks0 - 1) * C ≤ size0)
+    (s : St) (h : Reach C size0 nchunks0 s) : AInv C s ∧ DInv C s := by
+  induction h with
+  | init => exact ⟨inv_init C size0 nchunks0 hC hn h0, dinv_init size0 nchunks0 C⟩
+  | step s s' _ hs ih => exact ⟨inv_step C s s' hs ih.1, dinv_step C s s' hs ih.1 ih.2⟩
+
+/-- a returned interval lies inside one chunk and below `size` -/
+theorem returned_in_chunk (C : Nat) (s : St) (h : AInv C s) (ac new n : Nat) (hr : (ac, new, n) ∈ s.sh.ret) :
+    0 < n ∧ n ≤ new ∧ (new - n) / C = ac ∧ (new - 1) / C = ac ∧ new ≤ s.sh.size := by
+  obtain ⟨hn, hle, hlo, hhi, hsz, _⟩ := h.good ac new n (Or.inl hr)
+  refine ⟨hn, hle, ?_, hhi, hsz⟩
+  have h2 : new - 1 < (ac + 1) * C := by
+    have := Nat.lt_mul_div_succ (new - 1) h.cpos
+    rw [hhi, Nat.mul_comm] at this; exact this
+  have h3 : new - n < (ac + 1) * C := Nat.lt_of_le_of_lt (by omega) h2
+  exact Nat.div_eq_of_lt_le hlo h3
+
+/-- progress measure of one call: every own step decreases it -/
+def rank : Pc → Nat
+  | .idle => 0
+  | .panicked => 0
+  | .returned _ _ => 1
+  | .start _ r => 10 * r + 1
+  | .loaded _ r _ => 10 * r + 10
+  | .added _ r _ _ => 10 * r + 9
+  | .lockw _ r _ => 10 * r + 8
+  | .locked _ r _ => 10 * r + 7
+  | .chunksLoaded _ r _ _ => 10 * r + 6
+  | .appended _ r _ => 10 * r + 5
+  | .sized _ r _ => 10 * r + 4
+  | .unlocking _ r => 10 * r + 2
+
+theorem rank_decreases (C t : Nat) (sh sh' : Sh) (pc pc' : Pc) (h : tstep C t sh pc = some (sh', pc')) :
+    rank pc' < rank pc := by
+  cases pc <;> simp only [tstep] at h
+  all_goals (try split at h)
+  all_goals (try (simp only [Option.some.injEq, Prod.mk.injEq] at h; obtain ⟨rfl, rfl⟩ := h))
+  all_goals (try (cases h; done))
+  all_goals (simp only [rank]; omega)
+
+theorem blocked_only_on_lock (C t : Nat) (sh : Sh) (pc : Pc) (h : tstep C t sh pc = none) :
+    pc = .idle ∨ pc = .panicked ∨ (∃ n r ac, pc = .lockw n r ac ∧ sh.lock ≠ none) := by
+  cases pc <;> simp only [tstep] at h
+  all_goals (try split at h)
+  all_goals (try (cases h; done))
+  all_goals (try simp)
+  all_goals (try assumption)
+
 end Gsu.Alloc
